@@ -112,9 +112,14 @@ def classify(res, g):
         ordered = sorted(spans, key=lambda sp: (0 if sp.get("is_primary") else 1, sp["line_end"] - sp["line_start"]))
         label = None
         for sp in ordered:
+            last = sp["line_end"]
             if sp["line_end"] - sp["line_start"] > 6:
-                continue
-            for ln in range(sp["line_start"], sp["line_end"] + 1):
+                # a long clause (a multi-line `==> ({ … })`): only a label on its first line names it; a long span that
+                # is a whole body / loop must not sweep up labels of the lines it contains
+                if not sp.get("is_primary"):
+                    continue
+                last = sp["line_start"]
+            for ln in range(sp["line_start"], last + 1):
                 if ln in g.labels:
                     label = g.labels[ln]
                     break
